@@ -7,7 +7,7 @@ git -C /repo worktree add -q --detach "$wt" main || exit 2
 if ! git -C "$wt" apply "$patch"; then echo "patch does not apply"; git -C /repo worktree remove --force "$wt"; exit 2; fi
 cd /verif
 for id in "$@"; do
-  out=$(VERIF_REPO="$wt" ./check "$id" "${TIER:-quick}" 2>&1)
+  out=$(VERIF_REPO="$wt" VERIF_EVIDENCE_DIR=/tmp/s/evidence ./check "$id" "${TIER:-quick}" 2>&1)
   rc=$?
   v=$(echo "$out" | grep '^VIOLATION' | head -2 | tr '\n' ' ')
   echo "$id rc=$rc ${v:-no-violation}"
